@@ -88,6 +88,11 @@ func (c *context) collectEnvInputs(m *manifestBuilder) {
 		llgoWasiThreads,
 		llgoStdioNobuf,
 		llgoFullRpath,
+		// Select which packages get their Plan 9 assembly translated, and the
+		// flags package C files are compiled with: both end up in the archive.
+		llgoPlan9ASMPkgs,
+		"CCFLAGS",
+		"CFLAGS",
 	}
 	for _, envVar := range envVars {
 		if v := os.Getenv(envVar); v != "" {
